@@ -153,6 +153,10 @@ class FlowWalker:
                 after = after | frozenset(f for f in out if self.loop_keep(f))
             if isinstance(s, ast.While):
                 after = self._expr(s.test, after)
+            # the loop as a whole may be an event for the client (e.g. "every cnode of the state was time-sliced")
+            self.ctx.node = s
+            for ev in self.events(s, self.ctx):
+                after = self.transfer(after, ev, self.ctx)
             if s.orelse:
                 return self._block(s.orelse, after)
             return after
